@@ -1,4 +1,4 @@
-import GomlVerif.Lemmas.GoCompVec
+import GomlVerif.Lemmas.GoCompDyn
 /-!
 Forward simulation `Sem` (ANF) ⟶ `Go.Sem` (output of `GoCompile`) for stage (a): statements of the
 induction (`SimAt n`, one field per mutually dependent statement, indexed by the `Sem` fuel) and the
@@ -30,18 +30,26 @@ structure Link (env : Env) (file : AFile) (G : List String) (P : Prog) (F : GFil
   arrGo : ∀ len e, arrTyOK env file (.array len e) = true → ArrLink F len e
   vecSrc : ∀ b, b ∈ vecNames → P.findFn b = none
   vecGo : VecLink F
+  dynGo : ∀ tr forTy, (tr, forTy) ∈ dynTable env file G → DynLink env F tr forTy
+  /-- `Sem`'s dynamic dispatch finds the function the wrapper calls (the hypothesis `implsOK` on the program) -/
+  impls : ∀ tr forTy, (tr, forTy) ∈ dynTable env file G → ∀ s, s ∈ (traitMethodSigs env tr).getD [] →
+    ∃ i, P.impls.find? (fun i => i.1 == tr && i.2.1 == Sem.tyKey forTy && i.2.2.1 == s.1) = some i ∧
+      i.2.2.2 = Goml.Mono.traitImplFnName tr forTy s.1
   ty : TyLink env F
 
 /-- the function table of the heap context is `fnSigs file G`, and the Go name of every function in it is one of `Bad`
     (no Go variable is spelled like a function that may be used as a value) -/
-structure FCtx (file : AFile) (G : List String) (Bad : List String) (η : Hp) : Prop where
+structure FCtx (env : Env) (file : AFile) (G : List String) (Bad : List String) (η : Hp) : Prop where
   eq : η.fns = fnSigs file G
   bad : ∀ e, e ∈ η.fns → vn e.1 ∈ Bad
+  /-- the table of admissible vtables of the heap context is the one of the fragment -/
+  deq : η.dyns = dynTable env file G
 
-theorem FCtx.mono {file : AFile} {G Bad : List String} {η η' : Hp} (h : FCtx file G Bad η) (hle : η.le η') : FCtx file G Bad η' :=
-  ⟨by rw [hle.2.2.1]; exact h.eq, fun e he => h.bad e (by rw [← hle.2.2.1]; exact he)⟩
+theorem FCtx.mono {env : Env} {file : AFile} {G Bad : List String} {η η' : Hp} (h : FCtx env file G Bad η) (hle : η.le η') :
+    FCtx env file G Bad η' :=
+  ⟨by rw [hle.2.2.1]; exact h.eq, fun e he => h.bad e (by rw [← hle.2.2.1]; exact he), by rw [hle.2.2.2.2]; exact h.deq⟩
 
-theorem FCtx.rel {file : AFile} {G Bad : List String} {η : Hp} (h : FCtx file G Bad η) {gρ : GEnv}
+theorem FCtx.rel {env : Env} {file : AFile} {G Bad : List String} {η : Hp} (h : FCtx env file G Bad η) {gρ : GEnv}
     (hgood : ∀ y, y ∈ keys gρ → ¬ y ∈ Bad) : FnRel file G η gρ :=
   ⟨h.eq, fun e he => Goml.Dce.lookup_none_of_not_key (fun hk => hgood _ hk (h.bad e he))⟩
 
@@ -116,7 +124,7 @@ variable (env : Env) (file : AFile) (G : List String) (P : Prog) (F : GFile)
 /-- calls of functions of `G` -/
 def SimU (n : Nat) : Prop :=
   ∀ g, g ∈ file → g.name ∈ G → ∀ (η : Hp) (vs : List Val) (gvs : List GVal) (w : World) (gw : GWorld),
-    η.fns = fnSigs file G → ArgsRel env η vs gvs (g.params.map (·.2)) → WRel env η w gw →
+    η.fns = fnSigs file G → η.dyns = dynTable env file G → ArgsRel env η vs gvs (g.params.map (·.2)) → WRel env η w gw →
     ConclCall env η F (fnName g.name) gvs gw g.ret (Sem.apply n P w (.fn g.name) vs)
 
 /-- calls of builtins -/
@@ -128,7 +136,7 @@ def SimB (n : Nat) : Prop :=
 def SimV (n : Nat) : Prop :=
   ∀ (c : CExpr) (η : Hp) (Γ : Ctx) (K : KCtx) (ρ : Sem.Env) (w : World) (gρ : GEnv) (gw : GWorld) (Bad : List String),
     isCtl c = false → isGoC c = false → fragC env file G Γ K c = true → EnvRel env η Γ ρ gρ → KRel K ρ → WRel env η w gw →
-    (∀ y, y ∈ keys gρ → ¬ y ∈ Bad) → FCtx file G Bad η → (∀ x, x ∈ calleesC (Γ.map (·.1)) c → x ∈ Bad) →
+    (∀ y, y ∈ keys gρ → ¬ y ∈ Bad) → FCtx env file G Bad η → (∀ x, x ∈ calleesC (Γ.map (·.1)) c → x ∈ Bad) →
     ConclV env η F (compileCExpr env c) gρ gw c.annTy (pureC c) (mayPanicC c) w (Sem.eval n P ρ w c.toExpr)
 
 /-- the statement `go f(env)`: the `Sem` run of `go e` (value unit) against the Go statement, which leaves the Go
@@ -142,21 +150,21 @@ def ConclG (η : Hp) (s : GStmt) (gρ : GEnv) (gw : GWorld) : Res Val → Prop
 def SimG (n : Nat) : Prop :=
   ∀ (e : Imm) (ty : Ty) (η : Hp) (Γ : Ctx) (K : KCtx) (ρ : Sem.Env) (w : World) (gρ : GEnv) (gw : GWorld) (Bad : List String),
     fragC env file G Γ K (.go e ty) = true → EnvRel env η Γ ρ gρ → WRel env η w gw →
-    (∀ y, y ∈ keys gρ → ¬ y ∈ Bad) → FCtx file G Bad η → (∀ x, x ∈ calleesC (Γ.map (·.1)) (.go e ty) → x ∈ Bad) →
+    (∀ y, y ∈ keys gρ → ¬ y ∈ Bad) → FCtx env file G Bad η → (∀ x, x ∈ calleesC (Γ.map (·.1)) (.go e ty) → x ∈ Bad) →
     ConclG env F η (compileGo env e) gρ gw (Sem.eval n P ρ w (CExpr.go e ty).toExpr)
 
 /-- `AExpr`s in either statement lowering -/
 def SimA (n : Nat) : Prop :=
   ∀ (m : Mode) (st : St) (e : AExpr) (η : Hp) (Γ : Ctx) (K : KCtx) (ρ : Sem.Env) (w : World) (gρ : GEnv) (gw : GWorld) (Bad : List String),
     fragA env file G Γ K e = true → EnvRel env η Γ ρ gρ → KRel K ρ → WRel env η w gw →
-    GInv Bad (compileA env m st e).1 gρ → TgtOK m Γ gρ (aTy e) → "_" ∈ Bad → FCtx file G Bad η → (∀ x, x ∈ calleesA (Γ.map (·.1)) e → x ∈ Bad) →
+    GInv Bad (compileA env m st e).1 gρ → TgtOK m Γ gρ (aTy e) → "_" ∈ Bad → FCtx env file G Bad η → (∀ x, x ∈ calleesA (Γ.map (·.1)) e → x ∈ Bad) →
     Concl env η F (compileA env m st e).1 m gρ gw (aTy e) (Sem.eval n P ρ w e.toExpr)
 
 /-- `CExpr`s in tail position of either statement lowering -/
 def SimC (n : Nat) : Prop :=
   ∀ (m : Mode) (st : St) (c : CExpr) (η : Hp) (Γ : Ctx) (K : KCtx) (ρ : Sem.Env) (w : World) (gρ : GEnv) (gw : GWorld) (Bad : List String),
     fragC env file G Γ K c = true → EnvRel env η Γ ρ gρ → KRel K ρ → WRel env η w gw →
-    GInv Bad (compileTail env m st c).1 gρ → TgtOK m Γ gρ c.annTy → "_" ∈ Bad → FCtx file G Bad η → (∀ x, x ∈ calleesC (Γ.map (·.1)) c → x ∈ Bad) →
+    GInv Bad (compileTail env m st c).1 gρ → TgtOK m Γ gρ c.annTy → "_" ∈ Bad → FCtx env file G Bad η → (∀ x, x ∈ calleesC (Γ.map (·.1)) c → x ∈ Bad) →
     Concl env η F (compileTail env m st c).1 m gρ gw c.annTy (Sem.eval n P ρ w c.toExpr)
 
 /-- the loop statement `compile_while` builds, started in an environment that holds the condition variable -/
@@ -168,7 +176,7 @@ def loopBody (cv : String) (st : St) (c b : AExpr) : List GStmt :=
 def SimL (n : Nat) : Prop :=
   ∀ (cv : String) (st : St) (c b : AExpr) (η : Hp) (Γ : Ctx) (K : KCtx) (ρ : Sem.Env) (w : World) (gρ : GEnv) (gw : GWorld) (Bad : List String),
     fragA env file G Γ K c = true → aTy c = .bool → fragA env file G Γ K b = true → aTy b = .unit →
-    EnvRel env η Γ ρ gρ → KRel K ρ → WRel env η w gw → GInv Bad (loopBody env cv st c b) gρ → TgtOK (.assign cv) Γ gρ .bool → "_" ∈ Bad → FCtx file G Bad η →
+    EnvRel env η Γ ρ gρ → KRel K ρ → WRel env η w gw → GInv Bad (loopBody env cv st c b) gρ → TgtOK (.assign cv) Γ gρ .bool → "_" ∈ Bad → FCtx env file G Bad η →
     (∀ x, x ∈ calleesA (Γ.map (·.1)) c ++ calleesA (Γ.map (·.1)) b → x ∈ Bad) →
     match Sem.eval n P ρ w (.while c.toExpr b.toExpr) with
     | .ok v w' => v = .unit ∧ ∃ η', η.le η' ∧ ∃ gw', StmtS F gρ gw (.loop (loopBody env cv st c b))
@@ -202,7 +210,7 @@ def SimME (n : Nat) : Prop :=
     EnvRel env η Γ ρ gρ → KRel K ρ → WRel env η w gw →
     Sem.lookupEnv ρ x = some (.enumV en i vs) → HasTy env η (.enumV en i vs) (.enum en) → VRel env η (.enumV en i vs) (.enum en) gv →
     GInvN Bad (armDecls (compileArms env m st arms).1 ++ optDecls (compileDflt env m (compileArms env m st arms).2 d).1) gρ →
-    TgtOK m Γ gρ ty → "_" ∈ Bad → FCtx file G Bad η → (∀ c, c ∈ calleesArms (Γ.map (·.1)) arms ++ calleesD (Γ.map (·.1)) d → c ∈ Bad) →
+    TgtOK m Γ gρ ty → "_" ∈ Bad → FCtx env file G Bad η → (∀ c, c ∈ calleesArms (Γ.map (·.1)) arms ++ calleesD (Γ.map (·.1)) d → c ∈ Bad) →
     ConclSw env η (TSwS F gρ gw gv (typeCases env (compileArms env m st arms).1) (compileDflt env m (compileArms env m st arms).2 d).1)
       m gρ ty (Sem.evalArms n P ρ w (.enumV en i vs) (armsToExpr arms) (dfltToExpr d))
 
@@ -213,7 +221,7 @@ def SimMV (n : Nat) : Prop :=
     switchTy sty = true → fragArms env file G Γ K (.valK sty) ty arms = true → fragD env file G Γ K ty d = true →
     EnvRel env η Γ ρ gρ → KRel K ρ → WRel env η w gw → HasTy env η v sty → VRel env η v sty gv →
     GInvN Bad (armDecls (compileArms env m st arms).1 ++ optDecls (compileDflt env m (compileArms env m st arms).2 d).1) gρ →
-    TgtOK m Γ gρ ty → "_" ∈ Bad → FCtx file G Bad η → (∀ c, c ∈ calleesArms (Γ.map (·.1)) arms ++ calleesD (Γ.map (·.1)) d → c ∈ Bad) →
+    TgtOK m Γ gρ ty → "_" ∈ Bad → FCtx env file G Bad η → (∀ c, c ∈ calleesArms (Γ.map (·.1)) arms ++ calleesD (Γ.map (·.1)) d → c ∈ Bad) →
     ConclSw env η (SwS F gρ gw gv (valueCases (matchKind sty) (compileArms env m st arms).1) (compileDflt env m (compileArms env m st arms).2 d).1)
       m gρ ty (Sem.evalArms n P ρ w v (armsToExpr arms) (dfltToExpr d))
 
@@ -228,7 +236,7 @@ def SimMU (n : Nat) : Prop :=
   ∀ (m : Mode) (st : St) (arms : List AArm) (d : ADflt) (ty : Ty) (η : Hp) (Γ : Ctx) (K : KCtx) (ρ : Sem.Env) (w : World)
     (gρ : GEnv) (gw : GWorld) (Bad : List String),
     fragUnit env file G Γ K ty arms d = true → EnvRel env η Γ ρ gρ → KRel K ρ → WRel env η w gw →
-    GInv Bad (unitStmts env m st arms d).1 gρ → TgtOK m Γ gρ ty → "_" ∈ Bad → FCtx file G Bad η →
+    GInv Bad (unitStmts env m st arms d).1 gρ → TgtOK m Γ gρ ty → "_" ∈ Bad → FCtx env file G Bad η →
     (∀ c, c ∈ calleesArms (Γ.map (·.1)) arms ++ calleesD (Γ.map (·.1)) d → c ∈ Bad) →
     Concl env η F (unitStmts env m st arms d).1 m gρ gw ty (Sem.evalArms n P ρ w .unit (armsToExpr arms) (dfltToExpr d))
 
